@@ -219,16 +219,17 @@ def create_redist_dict(
         reverse=True,
     )
     realloc = {}
-    for pair in sorted_scores:
+    for idx, pair in enumerate(sorted_scores):
+      # Recompute the remaining total: a running `total_score -= score` keeps
+      # subtracting scores that float32 rounding had absorbed into the total.
+      total_score = sum(score for _, score in sorted_scores[idx:])
       if is_outlier(pair[1], total_score, group_resource, dim - 1):
         realloc.update({pair[0]: dim})
         group_resource -= (dim - 1)
-        total_score -= pair[1]
       else:
         unit_rsc = group_resource / total_score if total_score else 0.0
         realloc.update({pair[0]: rd(pair[1] * unit_rsc)})
         group_resource -= (rd(pair[1] * unit_rsc) - 1)
-        total_score -= pair[1]
 
     for key in realloc:
       assert realloc[key] <= dim, (key, realloc[key], dim)
